@@ -44,6 +44,9 @@ pub struct TrackView {
     pub feat_hist: Option<Vec<Option<Vec<f32>>>>,
     pub gallery: Option<Vec<(Option<Vec<f32>>, f32)>>,
     pub collected: Option<usize>,
+    /// last estimated box (class-0 observation) and Kalman state, for measuring weights outside the tracker
+    pub est: Option<Universal2DBox>,
+    pub kstate: Option<similari::utils::kalman::KalmanState<{ similari::utils::kalman::kalman_2d_box::DIM_2D_BOX_X2 }>>,
 }
 
 fn rec(t: &SortTrack) -> Rec {
@@ -208,6 +211,8 @@ fn sort_view(w: WastedSortTrack, cid: Option<i64>) -> TrackView {
         feat_hist: None,
         gallery: None,
         collected: None,
+        est: None,
+        kstate: None,
     }
 }
 
@@ -230,6 +235,8 @@ macro_rules! sort_content {
                     feat_hist: None,
                     gallery: None,
                     collected: None,
+                    est: t.get_observations(0).and_then(|o| o.first()).and_then(|o| o.attr().clone()),
+                    kstate: similari::trackers::kalman_prediction::TrackAttributesKalmanPrediction::get_state(a),
                 });
             }
         }
@@ -266,6 +273,8 @@ macro_rules! visual_content {
                     feat_hist: Some(a.observed_features.iter().map(|f| f.as_ref().map(|x| Vec::from_vec(x))).collect()),
                     gallery,
                     collected: Some(a.visual_features_collected_count),
+                    est: t.get_observations(0).and_then(|o| o.first()).and_then(|o| o.attr().as_ref()).and_then(|x| x.bbox_opt().clone()),
+                    kstate: similari::trackers::kalman_prediction::TrackAttributesKalmanPrediction::get_state(a),
                 });
             }
         }
@@ -389,6 +398,8 @@ fn visual_wasted_view(w: WastedVisualSortTrack, cid: Option<i64>) -> TrackView {
         feat_hist: Some(w.observed_features),
         gallery: None,
         collected: None,
+        est: None,
+        kstate: None,
     }
 }
 
